@@ -1,7 +1,150 @@
+import Labella.Proofs.CalendarLemmas
+import Labella.Proofs.TimeTickLemmas
 import Labella.Model.CalSpec
+/-! # C16 — time ticks increase, stay in the domain, sit on calendar boundaries
+# C14 (time part) — time nice() only widens, onto calendar boundaries
+# C15 — the time scale is the linear scale on milliseconds
+
+All statements hold for every pair of integer instants (not only 1900–2200) and every count `m > 0`. -/
 namespace Labella.C16
 open Labella Labella.Calendar
 
-theorem placeholder_epoch : civil 0 = (1970, 1, 1) := by decide
+/-! ### hierarchy of calendar boundaries -/
+
+theorem boundary_hierarchy (t : Int) :
+    (isBoundary .year t = true → isBoundary .month t = true) ∧
+    (isBoundary .month t = true → isBoundary .day t = true) ∧
+    (isBoundary .week t = true → isBoundary .day t = true) ∧
+    (isBoundary .day t = true → isBoundary .hour t = true) ∧
+    (isBoundary .hour t = true → isBoundary .minute t = true) ∧
+    (isBoundary .minute t = true → isBoundary .second t = true) := by
+  simp only [isBoundary, beq_iff_eq, Bool.and_eq_true, msPerDay]
+  refine ⟨fun h => h.1, fun h => h.1, fun h => h.1, ?_, ?_, ?_⟩ <;> omega
+
+/-! ### ticks -/
+
+/-- the millisecond range lists exactly the multiples of the (integer, ≥ 1) step in `[t0, t1)` -/
+theorem msRange_mem (t0 t1 : Int) (step : Rat) (x : Int) :
+    x ∈ msRange t0 t1 step ↔
+      (t0 ≤ x ∧ x < t1 ∧ x % (if step.floor < 1 then 1 else step.floor) = 0) := by
+  exact msRange_mem' t0 t1 step x
+
+theorem msRange_increasing (t0 t1 : Int) (step : Rat) : strictlyIncreasingB (msRange t0 t1 step) = true := by
+  exact msRange_increasing' t0 t1 step
+
+/-- ticks are strictly increasing (in particular pairwise distinct) -/
+theorem ticks_increasing (d0 d1 : Int) (m : Rat) : strictlyIncreasingB (ticks d0 d1 m) = true := by
+  unfold ticks
+  simp only
+  split
+  · exact msRange_increasing' _ _ _
+  · exact calRange_increasing _ _ _ _
+
+/-- every tick lies inside the domain (either orientation) -/
+theorem ticks_in_domain (d0 d1 : Int) (m : Rat) : inDomainB (min d0 d1) (max d0 d1) (ticks d0 d1 m) = true := by
+  unfold inDomainB
+  rw [List.all_eq_true]
+  intro x hx
+  unfold ticks at hx
+  simp only at hx
+  split at hx
+  · have := (msRange_mem' _ _ _ _).1 hx
+    simp only [Bool.and_eq_true, decide_eq_true_eq]
+    omega
+  · have := calRange_sub _ _ _ _ _ hx
+    simp only [Bool.and_eq_true, decide_eq_true_eq]
+    omega
+
+/-- when the chosen method is a calendar unit, every tick is a boundary of that unit — hence, by
+`boundary_hierarchy`, of every finer unit: whole seconds / minutes / hours, midnight for day-or-coarser, first of
+the month for month-or-coarser, 1 January for yearly -/
+theorem ticks_on_boundaries (d0 d1 : Int) (m : Rat) (u : TUnit) (s : Rat)
+    (h : tickMethod (min d0 d1) (max d0 d1) m = .cal u s) :
+    ∀ t ∈ ticks d0 d1 m, isBoundary u t = true := by
+  intro t ht
+  unfold ticks at ht
+  simp only [h] at ht
+  exact (calRange_sub _ _ _ _ _ ht).1
+
+/-- … and for an integral skip they are exactly the boundaries in the domain whose unit number is divisible by it -/
+theorem ticks_mem_cal (d0 d1 : Int) (m : Rat) (u : TUnit) (s : Rat)
+    (h : tickMethod (min d0 d1) (max d0 d1) m = .cal u s) (hs : (effSkip s).den = 1) (x : Int) :
+    x ∈ ticks d0 d1 m ↔
+      (isBoundary u x = true ∧ min d0 d1 ≤ x ∧ x ≤ max d0 d1 ∧
+        ((effSkip s).num ≤ 1 ∨ numberU u x % (effSkip s).num = 0)) := by
+  unfold ticks
+  simp only [h]
+  rw [calRange_mem_int _ _ _ _ hs]
+  constructor
+  · rintro ⟨a, b, c, d⟩; exact ⟨a, b, by omega, d⟩
+  · rintro ⟨a, b, c, d⟩; exact ⟨a, b, by omega, d⟩
+
+/-- sub-second domains: one tick per multiple of the integer millisecond step -/
+theorem ticks_mem_ms (d0 d1 : Int) (m : Rat) (s : Rat)
+    (h : tickMethod (min d0 d1) (max d0 d1) m = .ms s) (x : Int) :
+    x ∈ ticks d0 d1 m ↔
+      (min d0 d1 ≤ x ∧ x ≤ max d0 d1 ∧ x % (if (effSkip s).floor < 1 then 1 else (effSkip s).floor) = 0) := by
+  unfold ticks
+  simp only [h]
+  rw [msRange_mem']
+  constructor
+  · rintro ⟨a, b, c⟩; exact ⟨a, by omega, c⟩
+  · rintro ⟨a, b, c⟩; exact ⟨a, by omega, c⟩
+
+/-! ### nice (time) -/
+
+/-- floor and ceil of the method's interval bracket the instant -/
+theorem mFloor_le (m : Method) (t : Int) : mFloor m t ≤ t := by
+  exact mFloor_le' m t
+
+theorem le_mCeil (m : Method) (t : Int) : t ≤ mCeil m t := by
+  exact le_mCeil' m t
+
+/-- the skip loops only move further out -/
+theorem niceFloor_le (m : Method) (fuel : Nat) (t : Int) : niceFloor m fuel t ≤ t := by
+  exact niceFloor_le' m fuel t
+
+theorem le_niceCeil (m : Method) (fuel : Nat) (t : Int) : t ≤ niceCeil m fuel t := by
+  exact le_niceCeil' m fuel t
+
+/-- making a time domain nice never moves an end inward and never reverses its orientation -/
+theorem nice_widens (d0 d1 : Int) (m : Rat) :
+    (d0 ≤ d1 → (nice d0 d1 m).1 ≤ d0 ∧ d1 ≤ (nice d0 d1 m).2) ∧
+    (d1 < d0 → d0 ≤ (nice d0 d1 m).1 ∧ (nice d0 d1 m).2 ≤ d1) := by
+  rw [nice_eq]
+  have W := niceRaw_widens (min d0 d1) (max d0 d1) (tickMethod (min d0 d1) (max d0 d1) m)
+  constructor
+  · intro hle
+    rw [if_neg (by omega)]
+    have e0 : min d0 d1 = d0 := by omega
+    have e1 : max d0 d1 = d1 := by omega
+    rw [e0, e1] at W ⊢
+    exact W
+  · intro hlt
+    rw [if_pos hlt]
+    have e0 : min d0 d1 = d1 := by omega
+    have e1 : max d0 d1 = d0 := by omega
+    rw [e0, e1] at W ⊢
+    exact ⟨W.2, W.1⟩
+
+/-- with a calendar method both new ends are boundaries of the method's unit (so aligned at least as coarsely as the ticks) -/
+theorem nice_on_boundaries (d0 d1 : Int) (m : Rat) (u : TUnit) (s : Rat)
+    (h : tickMethod (min d0 d1) (max d0 d1) m = .cal u s) :
+    isBoundary u (nice d0 d1 m).1 = true ∧ isBoundary u (nice d0 d1 m).2 = true := by
+  rw [nice_eq, h]
+  have B := niceRaw_boundary (min d0 d1) (max d0 d1) u s
+  split
+  · exact ⟨B.2, B.1⟩
+  · exact B
+
+-- non-vacuity (evaluated): ticks 0 86400000 10 = every 3 hours of 1970-01-01; nice 1000 90000000 10 = (0, 97200000)
+example : tickMethod 0 86400000 10 = .cal .hour 3 := by
+  decide +kernel
+example : ticks 0 86400000 10 =
+    [0, 10800000, 21600000, 32400000, 43200000, 54000000, 64800000, 75600000, 86400000] := by
+  decide +kernel
+example : nice 1000 90000000 10 = (0, 97200000) := by
+  decide +kernel
 
 end Labella.C16
+
